@@ -175,8 +175,8 @@ def check(ob, ctx, timeout_ms=10000, want_model=True, use_cvc5=True, wall_ms=Non
     except Exception as e:  # grounding must never turn into a verdict
         return {"status": "error", "reason": f"grounding: {type(e).__name__}: {e}", "time": time.time() - t0}
     s = z3.Solver()
-    s.set("rlimit", timeout_ms * 1500)
-    s.set("timeout", wall_ms or max(timeout_ms * 2, 10000))
+    s.set("rlimit", timeout_ms * 3000)
+    s.set("timeout", wall_ms or max(timeout_ms * 12, 120000))
     for h in hyps:
         s.add(h)
     s.add(z3.Not(goal))
@@ -231,3 +231,57 @@ def model_dict(m):
             except Exception:
                 pass
     return out
+
+
+def solve_all(ctx, obligations, timeout_ms, procs=None):
+    """discharge the obligations of one task; large tasks fork a few solver processes (the z3 context
+    and the grounding caches are inherited copy-on-write, results come back as plain dicts)"""
+    import json
+    import os as _os
+
+    def one(ob):
+        r = check(ob, ctx, timeout_ms=timeout_ms)
+        d = {"id": ob.id, "kind": ob.kind, "label": ob.label, "lineno": ob.lineno, "path": ob.path,
+             "props": ob.props, "status": r["status"], "backend": r.get("backend"), "time": round(r["time"], 4)}
+        if "model" in r:
+            d["model"] = r["model"]
+        if "reason" in r:
+            d["reason"] = r["reason"]
+        return d
+
+    n = len(obligations)
+    if procs is None:
+        procs = 1 if n < 120 else (3 if n < 400 else 5)
+    if procs <= 1:
+        return [one(ob) for ob in obligations]
+    slices = [list(range(k, n, procs)) for k in range(procs)]
+    kids = []
+    for sl in slices:
+        r_fd, w_fd = _os.pipe()
+        pid = _os.fork()
+        if pid == 0:
+            try:
+                _os.close(r_fd)
+                out = [(k, one(obligations[k])) for k in sl]
+                with _os.fdopen(w_fd, "w") as fh:
+                    fh.write(json.dumps(out))
+            finally:
+                _os._exit(0)
+        _os.close(w_fd)
+        kids.append((pid, r_fd, sl))
+    results = [None] * n
+    for pid, r_fd, sl in kids:
+        with _os.fdopen(r_fd) as fh:
+            data = fh.read()
+        _os.waitpid(pid, 0)
+        try:
+            for k, d in json.loads(data):
+                results[k] = d
+        except Exception:
+            pass
+    for k in range(n):
+        if results[k] is None:
+            ob = obligations[k]
+            results[k] = {"id": ob.id, "kind": ob.kind, "label": ob.label, "lineno": ob.lineno, "path": ob.path,
+                          "props": ob.props, "status": "error", "reason": "solver process died", "time": 0.0, "backend": None}
+    return results
